@@ -266,6 +266,28 @@ def faults(R):
         return None
     F['lane_not_active'] = lane_inactive
 
+    def lane_inactive_repeat(pk, R):
+        """the first data word under a new IHW that deactivates its lane carries the same ID as the last
+        (valid) data word under the previous IHW of the link — a per-ID shortcut must not hide it"""
+        cand = []
+        for i, p in enumerate(pk):
+            if not p.words or p.words[0][9] != 0xE0: continue
+            prev = [j for j in range(i) if pk[j].rdh['link'] == p.rdh['link'] and any(isdata(pk[j], k, w) for k, w in enumerate(pk[j].words))]
+            dk = [k for k, w in enumerate(p.words) if isdata(p, k, w)]
+            if prev and dk: cand.append((i, prev[-1], dk))
+        if not cand: return None
+        i, j, dk = R.choice(cand)
+        last_id = [w[9] for k, w in enumerate(pk[j].words) if isdata(pk[j], k, w)][-1]
+        same = [k for k in dk if pk[i].words[k][9] == last_id]
+        if not same: return None
+        k0 = dk[0]
+        pk[i].words[k0], pk[i].words[same[0]] = pk[i].words[same[0]], pk[i].words[k0]
+        lane = (last_id & 31) if last_id >> 5 == 1 else G.ob_lane(last_id)
+        lanes = int.from_bytes(pk[i].words[0][:4], 'little') & ~(1 << lane)
+        pk[i].words[0] = struct.pack('<I', lanes) + pk[i].words[0][4:]
+        return (woff(pk, i, k0), {'E71', 'E72'}, True, True)
+    F['lane_not_active_repeat'] = lane_inactive_repeat
+
     def bc_decreasing(pk, R):
         # a TDH following a TDT with packet_done in the same page, with trigger_bc > 0
         pos = [(i, k) for i, p in enumerate(pk) for k, w in enumerate(p.words)
